@@ -56,8 +56,8 @@ PROPS = {
     },
     "C06": {
         "pkg": "sqlite", "level": "exploration",
-        "quick": {"stages": [st("^TestC06", 170, shards=3)]},
-        "thorough": {"stages": [st("^TestC06", 4000, shards=16, timeout=3000)]},
+        "quick": {"stages": [st("^TestC06(Query|RegressFixed)", 170, shards=3), st("^TestC06ConcurrentReaders", 40, shards=2)]},
+        "thorough": {"stages": [st("^TestC06(Query|RegressFixed)", 4000, shards=14, timeout=3000), st("^TestC06ConcurrentReaders", 2000, shards=4, timeout=3000)]},
     },
     "C14": {
         "pkg": "sqlite", "level": "fault_enumeration",
@@ -81,8 +81,8 @@ PROPS = {
     },
     "C16": {
         "pkg": "handlers", "level": "exploration",
-        "quick": {"stages": [st("^TestC16", 800), st("^TestC16SQLiteHandlerReplies", 300, pkg="sqlite"), st("^TestC16SQLiteRepublishAfterStall", 24, shards=2, pkg="sqlite")]},
-        "thorough": {"stages": [st("^TestC16", 20000, shards=10, timeout=3000), st("^TestC16SQLiteHandlerReplies", 5000, shards=6, pkg="sqlite", timeout=3000), st("^TestC16SQLiteRepublishAfterStall", 400, shards=4, pkg="sqlite", timeout=3000)]},
+        "quick": {"stages": [st("^TestC16", 800), st("^TestC16SQLiteHandlerReplies", 300, pkg="sqlite"), st("^TestC16SQLiteRepublishAfterStall", 24, shards=2, pkg="sqlite"), st("^TestC16SQLiteRetryAfterFault", 3, shards=3, pkg="sqlite")]},
+        "thorough": {"stages": [st("^TestC16", 20000, shards=10, timeout=3000), st("^TestC16SQLiteHandlerReplies", 5000, shards=6, pkg="sqlite", timeout=3000), st("^TestC16SQLiteRepublishAfterStall", 400, shards=4, pkg="sqlite", timeout=3000), st("^TestC16SQLiteRetryAfterFault", 40, shards=8, pkg="sqlite", timeout=3000)]},
     },
     "C07": {
         "pkg": "handlers", "level": "exploration",
